@@ -5,7 +5,7 @@
    that (in-place numpy updates, shared dictionaries) is what the correspondence and the
    before/after oracle check on every run (tested_only: the numpy aliasing of boundary matrices). *)
 From Coq Require Import String ZArith Bool Arith List.
-From SV Require Import Names NamesFacts ListFacts Rep Fresh Complex Atomic RepInv Reach Homology Filtration Gen World WorldProofs CtorFrame.
+From SV Require Import Names NamesFacts ListFacts Rep Fresh Complex Atomic RepInv Reach Homology Filtration Gen World WorldProofs CtorFrame DeepcopyFrame.
 
 (* any read-only query -- Betti numbers, normal forms, cycle bases, boundaries, Euler
    characteristic and integral, comparisons, ... -- returns the world it was given *)
@@ -33,3 +33,24 @@ Theorem C08_constructors_bind_only_result :
   vget (w_vars w') y = vget (w_vars w) y.
 Proof. exact ctor_binds_only_result. Qed.
 Print Assumptions C08_constructors_bind_only_result.
+
+(* copy.deepcopy: the attribute dictionaries that existed before are not written (uid is the new
+   object's owner, fresh in exec) ... *)
+Theorem C08_deepcopy_writes_only_new_cells :
+  forall hp r uid hp' r', deepcopy_rep hp r uid = (hp', r') ->
+  forall h, fst h <> uid -> heap_get hp' h = heap_get hp h.
+Proof. exact deepcopy_writes_only_new_cells. Qed.
+Print Assumptions C08_deepcopy_writes_only_new_cells.
+
+(* ... the result has the source's structure field by field, one attribute entry per entry of the
+   source under the same names, and every dictionary of the result belongs to the new owner *)
+Theorem C08_deepcopy_structure_and_ownership :
+  forall hp r uid hp' r', deepcopy_rep hp r uid = (hp', r') ->
+  (r_uid r' = uid /\ r_nord r' = r_nord r /\ r_simp r' = r_simp r /\ r_idx r' = r_idx r /\
+   r_bnd r' = r_bnd r /\ r_bas r' = r_bas r /\ r_seq r' = r_seq r) /\
+  map fst (r_attr r') = map fst (r_attr r) /\ Forall (fun q => fst (snd q) = uid) (r_attr r').
+Proof.
+  intros hp r uid hp' r' H. split; [exact (deepcopy_same_structure _ _ _ _ _ H)|].
+  exact (deepcopy_attr_names_and_owner _ _ _ _ _ H).
+Qed.
+Print Assumptions C08_deepcopy_structure_and_ownership.
